@@ -15,6 +15,7 @@ type fstate struct {
 	v        int
 	mt       int64
 	maxMt    int64 // highest mtime the file ever had
+	blocked  bool  // opening / stat'ing the file fails with a permission error (memfs.FailOpen)
 	lastDt0  bool  // the most recent write kept the mtime and changed the content
 	touched  bool  // written/deleted since a render that depended on it
 	rendered bool  // some earlier render depended on it
@@ -65,6 +66,9 @@ type model struct {
 	st    map[string]*fstate
 	views [2]*view // 0: the NewFS root template's engine, 1: the stand-alone Vue
 
+	store string               // "" or storeOverlayMixed
+	armed map[string]armedEdit // file -> edit that fires while (or right after) the next render depending on the file runs
+
 	step      int            // index of the op being applied (set by the caller)
 	lastWrite map[string]int // file -> index of the op that last wrote it (-1: initial content)
 	freshDt   map[string]int // file -> the delta that would have given that write a brand-new mtime
@@ -77,8 +81,45 @@ func viewIndex(entry string) int {
 	return 0
 }
 
-func newModel(init map[string]int) (*model, error) {
-	m := &model{st: map[string]*fstate{}, views: [2]*view{newView(), newView()}, lastWrite: map[string]int{}, freshDt: map[string]int{}}
+// armedEdit is a scripted edit that overlaps a load (see Op "arm").
+type armedEdit struct {
+	v, dt, idx int
+}
+
+const storeOverlayMixed = "overlay-mixed"
+
+// lowerLayer: with storeOverlayMixed the engines see vuego.NewOverlayFS(upper, lower) where
+// upper is the edited filesystem exposed through Open ONLY and lower is a plain filesystem
+// (with Stat) holding these older versions of the same files, all with mtime lowerMt. A file
+// that is deleted or unreadable in the upper layer shows its lower version.
+var lowerLayer = map[string]int{fPage: 2, fComp: 2, fMain: 2}
+
+const lowerMt = int64(50)
+
+// eff is the state of f as the engines see it.
+func (m *model) eff(f string) (exists bool, v int, mt int64) {
+	s := m.st[f]
+	if s == nil {
+		return false, 0, 0
+	}
+	if s.exists && !s.blocked {
+		return true, s.v, s.mt
+	}
+	if m.store == storeOverlayMixed {
+		if lv, ok := lowerLayer[f]; ok {
+			return true, lv, lowerMt
+		}
+	}
+	return false, 0, 0
+}
+
+func newModel(c Case) (*model, error) {
+	init := c.Init
+	if c.Store != "" && c.Store != storeOverlayMixed {
+		return nil, fmt.Errorf("harness: unknown store %q", c.Store)
+	}
+	m := &model{st: map[string]*fstate{}, views: [2]*view{newView(), newView()}, lastWrite: map[string]int{}, freshDt: map[string]int{},
+		store: c.Store, armed: map[string]armedEdit{}}
 	for _, f := range allFiles {
 		m.st[f] = &fstate{mt: t0, maxMt: t0}
 		m.lastWrite[f] = -1
@@ -160,11 +201,83 @@ func (m *model) remove(file string) {
 }
 
 func (m *model) cur(f string) (variant, bool) {
-	s := m.st[f]
-	if s == nil || !s.exists {
+	ex, v, _ := m.eff(f)
+	if !ex {
 		return variant{}, false
 	}
-	return variants[f][s.v], true
+	return variants[f][v], true
+}
+
+// apply performs a non-render op on the model and returns labels for the histogram.
+func (m *model) apply(i int, op Op) ([]string, error) {
+	m.step = i
+	if m.st[op.File] == nil {
+		return nil, fmt.Errorf("harness: unknown file %q", op.File)
+	}
+	switch {
+	case op.isWrite():
+		if _, err := getVariant(op.File, op.V); err != nil {
+			return nil, err
+		}
+		kind, mtClass := m.write(op.File, op.V, op.Dt)
+		return []string{"op:" + kind + ":" + op.File, mtClass}, nil
+	case op.Op == "delete":
+		m.remove(op.File)
+		return []string{"op:delete:" + op.File}, nil
+	case op.Op == "arm":
+		if _, err := getVariant(op.File, op.V); err != nil {
+			return nil, err
+		}
+		m.armed[op.File] = armedEdit{op.V, op.Dt, i}
+		return []string{"op:arm-edit-overlapping-a-load:" + op.File}, nil
+	case op.Op == "block":
+		f := m.st[op.File]
+		if !f.blocked && f.rendered {
+			f.touched = true
+		}
+		f.blocked = true
+		return []string{"op:make-unreadable:" + op.File}, nil
+	case op.Op == "unblock":
+		f := m.st[op.File]
+		if f.blocked && f.rendered {
+			f.touched = true
+		}
+		f.blocked = false
+		return []string{"op:make-readable-again:" + op.File}, nil
+	}
+	return nil, fmt.Errorf("harness: unknown op %q", op.Op)
+}
+
+// armedDeps lists the dependencies of a render that have an armed edit.
+func (m *model) armedDeps(deps []string) []string {
+	var out []string
+	for _, f := range deps {
+		if _, ok := m.armed[f]; ok {
+			out = append(out, f)
+		}
+	}
+	return out
+}
+
+// fire applies the armed edit of file f and returns the state the file had before, as the
+// engines saw it.
+func (m *model) fire(f string) (pre preState) {
+	a := m.armed[f]
+	delete(m.armed, f)
+	ex, v, mt := m.eff(f)
+	pre = preState{h: held{mt, v}, existed: ex, loadable: ex && variants[f][v].LoadOK}
+	step := m.step
+	m.step = a.idx // for the known-finding bookkeeping the arm op is the write
+	m.write(f, a.v, a.dt)
+	m.step = step
+	return pre
+}
+
+// preState is the state of a file (as the engines saw it) before an armed edit fired.
+type preState struct {
+	h        held
+	existed  bool
+	loadable bool
 }
 
 // closure lists the files a correct engine consults for render(entry, target) in the current
@@ -235,7 +348,7 @@ func (m *model) expectOK(entry, target string) bool {
 		}
 		needBase = mv.Layout == "base"
 	case "":
-		if s := m.st[fBase]; s.exists && target != fBase {
+		if ex, _, _ := m.eff(fBase); ex && target != fBase {
 			needBase = true
 		}
 	}
@@ -266,14 +379,15 @@ func (m *model) preRender(entry, target string) renderInfo {
 		if s.rendered && s.touched {
 			ri.rer = true
 		}
-		if !s.exists {
+		ex, ev, emt := m.eff(f)
+		if !ex {
 			continue
 		}
-		if conflicts(w.may[f], s.mt, s.v) {
+		if conflicts(w.may[f], emt, ev) {
 			if ri.ambiguous == "" {
 				ri.ambiguous, ri.viaSame = f, s.lastDt0
 			}
-		} else if conflicts(w.ever[f], s.mt, s.v) {
+		} else if conflicts(w.ever[f], emt, ev) {
 			if ri.stale == "" {
 				ri.stale = f
 			}
@@ -282,8 +396,8 @@ func (m *model) preRender(entry, target string) renderInfo {
 			}
 		}
 	}
-	if s := m.st[target]; entry == eVueRender && ri.ambiguous == "" && s.exists &&
-		conflicts(w.cache[target], s.mt, s.v) && !conflicts(w.may[target], s.mt, s.v) {
+	if ex, ev, emt := m.eff(target); entry == eVueRender && ri.ambiguous == "" && ex &&
+		conflicts(w.cache[target], emt, ev) && !conflicts(w.may[target], emt, ev) {
 		ri.uncached = target
 	}
 	return ri
@@ -294,12 +408,11 @@ func (m *model) preRender(entry, target string) renderInfo {
 func (m *model) postRender(entry, target string, ri renderInfo, ok bool) {
 	w := m.views[viewIndex(entry)]
 	note := func(f string, reset bool) {
-		s := m.st[f]
 		if reset {
 			w.may[f] = map[held]bool{}
 		}
-		if s.exists && variants[f][s.v].LoadOK {
-			h := held{s.mt, s.v}
+		if ex, ev, emt := m.eff(f); ex && variants[f][ev].LoadOK {
+			h := held{emt, ev}
 			w.may[f][h] = true
 			w.ever[f][h] = true
 		}
@@ -311,19 +424,19 @@ func (m *model) postRender(entry, target string, ri renderInfo, ok bool) {
 		// mirror of vuego's Vue.Render cache for the target (only used to delimit the known
 		// finding): gone when the file is missing, kept on an equal mtime, otherwise replaced by what
 		// loads (or gone when it does not load)
-		s := m.st[target]
+		ex, ev, emt := m.eff(target)
 		hit := false
 		for h := range w.cache[target] {
-			if s.exists && h.mt == s.mt {
+			if ex && h.mt == emt {
 				hit = true
 			}
 		}
 		switch {
 		case hit:
-		case !s.exists || !variants[target][s.v].LoadOK:
+		case !ex || !variants[target][ev].LoadOK:
 			w.cache[target] = map[held]bool{}
 		default:
-			w.cache[target] = map[held]bool{{s.mt, s.v}: true}
+			w.cache[target] = map[held]bool{{emt, ev}: true}
 		}
 	}
 	if ri.ambiguous != "" {
@@ -356,6 +469,47 @@ func (m *model) postRender(entry, target string, ri renderInfo, ok bool) {
 	}
 }
 
+// postRenderOverlapped records a render during (or right after) which armed edits fired: the
+// engine may have seen the files before or after the edit, or a mix, so nothing is reset; the
+// states before the edits (pres) and the current ones are all possible.
+//
+// An engine that stats a file and then reads it (the only order that can work) may, when the
+// edit falls between the two, pair the NEW content with the OLD mtime; that entry heals at the
+// next render (the mtime differs) unless the file later returns to exactly the old mtime, which
+// is the equal-mtime situation again, so this pairing counts as possibly held too. The reverse
+// pairing (old content, new mtime) would be stale for good and is not a possible state.
+func (m *model) postRenderOverlapped(entry, target string, ri renderInfo, pres map[string]preState) {
+	w := m.views[viewIndex(entry)]
+	for _, f := range ri.deps {
+		m.st[f].rendered, m.st[f].touched = true, false
+	}
+	add := func(f string, h held) {
+		w.may[f][h] = true
+		w.ever[f][h] = true
+		if entry == eVueRender && f == target {
+			w.cache[f][h] = true
+		}
+	}
+	for f, p := range pres {
+		if p.loadable {
+			add(f, p.h)
+		}
+		if ex, ev, _ := m.eff(f); ex && p.existed && variants[f][ev].LoadOK {
+			add(f, held{p.h.mt, ev})
+		}
+	}
+	for _, f := range allFiles {
+		if ex, ev, emt := m.eff(f); ex && variants[f][ev].LoadOK {
+			h := held{emt, ev}
+			w.may[f][h] = true
+			w.ever[f][h] = true
+			if entry == eVueRender && f == target {
+				w.cache[f][h] = true
+			}
+		}
+	}
+}
+
 const findingUncached = "C15-stale-entry-after-uncached-read"
 const findingBase = "C15-stale-default-layout-after-existence-check"
 
@@ -363,24 +517,18 @@ const findingBase = "C15-stale-default-layout-after-existence-check"
 // write that leads to a compared render in the region of an open known finding (and the delta
 // that gives that write a brand-new mtime instead, and the finding), or -1.
 func offendingWrite(c Case, avoid map[string]bool) (int, int, string) {
-	m, err := newModel(c.Init)
+	m, err := newModel(c)
 	if err != nil {
 		return -1, 0, ""
 	}
 	for i, op := range c.Ops {
 		m.step = i
 		switch {
-		case op.isWrite():
-			if _, err := getVariant(op.File, op.V); err != nil {
+		case op.Op != "render":
+			if _, err := m.apply(i, op); err != nil {
 				return -1, 0, ""
 			}
-			m.write(op.File, op.V, op.Dt)
-		case op.Op == "delete":
-			if m.st[op.File] == nil {
-				return -1, 0, ""
-			}
-			m.remove(op.File)
-		case op.Op == "render":
+		default:
 			target := op.Target
 			if target == "" {
 				target = fPage
@@ -389,6 +537,14 @@ func offendingWrite(c Case, avoid map[string]bool) (int, int, string) {
 				return -1, 0, ""
 			}
 			ri := m.preRender(op.Entry, target)
+			if armed := m.armedDeps(ri.deps); len(armed) > 0 {
+				pres := map[string]preState{}
+				for _, f := range armed {
+					pres[f] = m.fire(f)
+				}
+				m.postRenderOverlapped(op.Entry, target, ri, pres)
+				continue
+			}
 			if avoid[findingUncached] && ri.uncached != "" && m.lastWrite[ri.uncached] >= 0 {
 				return m.lastWrite[ri.uncached], m.freshDt[ri.uncached], findingUncached
 			}
@@ -416,7 +572,7 @@ func sanitize(c Case, avoid map[string]bool) (Case, []string) {
 		}
 		ops := append([]Op(nil), c.Ops...)
 		ops[idx].Dt = dt
-		c = Case{Init: c.Init, Ops: ops, Proc: c.Proc}
+		c = Case{Init: c.Init, Ops: ops, Proc: c.Proc, Store: c.Store}
 		n = append(n, id)
 	}
 	return c, n
